@@ -232,7 +232,9 @@ def _constants(case, V, st):
     try:
         if case['kind'] == 'constants-roundtrip':
             for kw in ({}, {'npts': [6, 8, 7, 6], 'iotaVal': 0.8}, {'rMin': 0.5, 'rMax': 9.25, 'eps': 1e-3, 'm': 3, 'n': -2, 'dt': 1},
-                       {'vMax': 5.5, 'vMin': -4.0, 'zMax': 100.0, 'B0': 2.0}):
+                       {'vMax': 5.5, 'vMin': -4.0, 'zMax': 100.0, 'B0': 2.0},
+                       {'eps': 0.0, 'n': 0, 'm': 0, 'kN0': 0.0, 'iotaVal': 0.0, 'zMin': 0.0, 'vMin': 0.0},
+                       {'kTi': 0.0, 'kTe': 0.0, 'eps0': 0.0, 'rMin': 0.0}):
                 c = Constants()
                 for k, v in kw.items():
                     setattr(c, k, v)
